@@ -132,6 +132,26 @@ def bounded(check, tier, seed):
     s.done()
 
 
+def long_sequences(check, tier):
+    """the grammar allows any number of parameters: combined sequences of 4 .. 100 parameters (resets in any position, repeats) against
+    the reference SGR interpreter"""
+    s = Suite(check, "C05.long_sequences", "one combined SGR sequence of n = 4, 5, 8, 16, 31, 32, 33, 34, 40, 64, 100 parameters drawn from the "
+              "supported codes (two fixed patterns and 40 random lists per n, resets at any position): per-character formatting as an ANSI "
+              "terminal shows it", bound="<= 100 parameters", exhaustive=False)
+    rng = random.Random(505)
+    for n in (4, 5, 8, 16, 31, 32, 33, 34, 40, 64, 100):
+        lists = [[1] * (n - 1) + [31], [0] * (n - 2) + [4, 44]]
+        for _ in range(40):
+            lists.append([rng.choice(CODES) for _ in range(n)])
+        for ps in lists:
+            st = "a\x1b[" + ";".join(map(str, ps)) + "mb\x1b[0mc"
+            s.case((n, tuple(ps)), sample=dict(seq=[st]) if len(s.samples) < 2 else None)
+            d = grammar_case(st)
+            if d:
+                s.fail("C05.grammar.long_sequence", dict(seq=[st], parameters=n), d[:400], replay={"kind": "suite", "module": "props.C05", "case": dict(seq=[st])})
+    s.done()
+
+
 def control_chars(check, tier):
     """every C0 / C1 control character (but ESC and the 8-bit CSI, which start sequences) and DEL as TEXT: first, last and only character
     of a run, after a styled / coloured / unformatted run, and directly after every kind of reset sequence in the grammar"""
@@ -159,3 +179,4 @@ def run(check, tier, seed):
     verify(E.token_type_contract(True), tier, check)
     bounded(check, tier, seed)
     control_chars(check, tier)
+    long_sequences(check, tier)
